@@ -169,6 +169,12 @@ def execute(case, ctx):
         out = h.apply(step)
         kinds.append(step['op'])
         ctx.event(step['id'], step['op'], name, out)
+        if h.ghosts:
+            # a key that was copied, and its living public twin, keep reflecting each other: key management on the copy is the
+            # copy's business
+            ctx.checked()
+            for msg in h.ghost_violations():
+                ctx.viol('C15:twin-of-copied-key-out-of-step', msg)
         if step['op'] == 'tick':
             if step['delta_us'] < 0:
                 ctx.probe('clock_backwards')
